@@ -6,7 +6,14 @@
      ll-enc ((type flags mfs (sub ...)) ...)  -> (ok xBYTES) | (ok len md5) | panic
      ll-rt  ((type flags mfs (sub ...)) ...)  -> encode, then read: (ok ((type flags mfs (pos ...)) ...)) | panic | err
      ll-read xBYTES pos extType   -> (ok ((type flags mfs (pos ...)) ...)) | err
-       sub = (b size seed) | (gsub xHEX) | (gpos xHEX) | (ctx xHEX) *)
+       sub = (b size seed) | (gsub xHEX) | (gpos xHEX) | (ctx xHEX)
+     vr-enc FMT|own VR            -> (format xBYTES encodeLen)      VR = nil | (xp yp xa ya xpd ypd xad yad)
+     vr-read FMT xBYTES           -> (ok VR bytesleft) | err
+     sub-enc SUBTABLE             -> (ok xBYTES encodeLen) | panic
+     sub-read gsub|gpos TYPE xBYTES pos -> (ok SUBTABLE) | err | fuel (reader not modelled)
+       SUBTABLE = (gsub11 (gid ...) delta) | (gsub12 COV (gid ...)) | (gsub21 COV ((gid ...) ...))
+                | (gsub31 COV ((gid ...) ...)) | (gpos11 COV VR) | (gpos12 COV (VR ...))
+       COV = ((gid idx runlen) ...) *)
 
 let outc (f : 'a -> sx) (o : 'a outcome) : sx =
   match o with
@@ -81,6 +88,53 @@ let bytes_obs (b : n list) : sx =
 let obs_lookups (l : lookup_obs list) : sx =
   L [A "ok"; L (List.map (fun o -> L [an o.lo_type; an o.lo_flags; an o.lo_mfs; L (List.map an o.lo_subpos)]) l)]
 
+(* ---- value records and subtables ---- *)
+let vr_of_sx x = match x with
+  | A "nil" -> None
+  | L [a; b; c; d; e; f; g; h] ->
+    Some { v_xp = sx_z a; v_yp = sx_z b; v_xa = sx_z c; v_ya = sx_z d;
+           v_xpd = sx_n e; v_ypd = sx_n f; v_xad = sx_n g; v_yad = sx_n h }
+  | _ -> failwith "bad value record"
+let sx_of_vr v = match v with
+  | None -> A "nil"
+  | Some r -> L [az r.v_xp; az r.v_yp; az r.v_xa; az r.v_ya; an r.v_xpd; an r.v_ypd; an r.v_xad; an r.v_yad]
+
+(* coverage table as runs ((gid idx len) ...) in which both advance by one *)
+let cov_of_sx (x : sx) : (n * n) list =
+  List.concat_map (fun r -> match r with
+    | L [g; i; n] -> let g = sx_int g and i = sx_int i and n = sx_int n in
+      List.init n (fun k -> (n_of_int (g + k), n_of_int (i + k)))
+    | _ -> failwith "bad run") (lst x)
+let sx_of_cov (l : (n * n) list) : sx = runs_of_pairs (List.map (fun (g, i) -> (int_of_n g, int_of_n i)) l)
+let ns_of_sx x = List.map sx_n (lst x)
+let sx_of_ns l = L (List.map an l)
+
+let sx_of_subtable (s : subtable) : sx = match s with
+  | SGsub11 (gl, d) -> L [A "gsub11"; sx_of_ns gl; an d]
+  | SGsub12 (c, su) -> L [A "gsub12"; sx_of_cov c; sx_of_ns su]
+  | SGsub21 (c, q) -> L [A "gsub21"; sx_of_cov c; L (List.map sx_of_ns q)]
+  | SGsub31 (c, q) -> L [A "gsub31"; sx_of_cov c; L (List.map sx_of_ns q)]
+  | SGpos11 (c, v) -> L [A "gpos11"; sx_of_cov c; sx_of_vr v]
+  | SGpos12 (c, vs) -> L [A "gpos12"; sx_of_cov c; L (List.map sx_of_vr vs)]
+
+let enc_obs (b : n list outcome) (n : n outcome) : sx =
+  match b, n with
+  | Ok b, Ok n -> L [A "ok"; A (hex_of_bytes b); an n]
+  | Panic, _ | _, Panic -> A "panic"
+  | _ -> A "err"
+
+let sub_encode (x : sx) : sx = match x with
+  | L [A "gsub11"; gl; d] -> let gl = ns_of_sx gl in enc_obs (m_gsub11_encode gl (sx_n d)) (m_gsub11_len gl)
+  | L [A "gsub12"; c; su] -> let c = as_table (cov_of_sx c) and su = ns_of_sx su in
+    enc_obs (m_gsub12_encode c su) (m_gsub12_len c su)
+  | L [A ("gsub21" | "gsub31"); c; q] -> let c = as_table (cov_of_sx c) and q = List.map ns_of_sx (lst q) in
+    enc_obs (m_gsubseq_encode c q) (m_gsubseq_len c q)
+  | L [A "gpos11"; c; v] -> let c = as_table (cov_of_sx c) and v = vr_of_sx v in
+    enc_obs (m_gpos11_encode c v) (m_gpos11_len c v)
+  | L [A "gpos12"; c; vs] -> let c = as_table (cov_of_sx c) and vs = List.map vr_of_sx (lst vs) in
+    enc_obs (m_gpos12_encode c vs) (m_gpos12_len c vs)
+  | _ -> failwith "bad subtable"
+
 let pair_nz x = match x with L [g; i] -> (sx_n g, sx_z i) | _ -> failwith "bad pair"
 
 let () = main_loop (fun c ->
@@ -115,4 +169,15 @@ let () = main_loop (fun c ->
      | Panic -> A "panic" | Err -> A "err" | OutOfFuel -> A "fuel")
   | [A "ll-read"; data; pos; ext] ->
     outc obs_lookups (m_ll_read (sx_bytes data) (sx_n pos) (sx_n ext))
+  | [A "vr-enc"; fmt; v] ->
+    (* fmt = "own": the record's own format *)
+    let v = vr_of_sx v in
+    let f = (match fmt with A "own" -> m_vr_format v | _ -> sx_n fmt) in
+    L [an f; A (hex_of_bytes (m_vr_encode f v)); an (m_vr_encode_len f)]
+  | [A "vr-read"; fmt; data] ->
+    outc (fun (v, rest) -> L [A "ok"; sx_of_vr v; ai (List.length rest)]) (m_vr_read (sx_n fmt) (sx_bytes data))
+  | [A "sub-enc"; st] -> sub_encode st
+  | [A "sub-read"; tbl; tp; data; pos] ->
+    outc (fun st -> L [A "ok"; sx_of_subtable st])
+      (m_sub_read (atom tbl = "gpos") (sx_bytes data) (sx_n pos) (sx_n tp))
   | _ -> failwith "bad case")
